@@ -30,6 +30,8 @@ def run(prop, select, clause_ok, nontrivial, rule, assumptions, replay_case=None
             out.nontrivial(c["name"])
             out.sample({"case": c["name"], "lr": c["lr"]["kind"], "glr": c["glr"]["kind"], "reference": c["flags"]})
         facts = {"glr-children-exceed-parents-only-by-trailing-layout"} if c["flags"].get("trailingLayoutExcessOnly") else set()
+        if c["flags"].get("emptyReduceCycle"):
+            facts.add("lr-table-has-a-cycle-of-empty-reductions")
         for cl in c["clauses"]:
             if clause_ok(cl, c):
                 out.fail(cl, c["name"], replay_obj(c), origin=c["origin"], facts=facts)
